@@ -25,7 +25,7 @@ PROBES = ["op_mask", "op_base64", "op_base64url", "op_netbios", "op_netbiosu", "
           "term_header", "term_parameter", "term_print", "term_uri_append", "uri_append_nonempty_initial_uri",
           "static_parameter", "static_header", "encoder_repeated", "three_build_blocks", "peer_unpadded_base64url",
           "empty_payload", "binary_affix", "session_population", "transform_without_initial_request", "sibling_configuration",
-          "payload_over_64k", "three_build_blocks_tuple_level"]
+          "payload_over_64k", "three_build_blocks_tuple_level", "initial_request_without_request_line", "mask_key_with_zero_bytes"]
 RULE = ("seeded plans: 85% exchange plans - three programs (every ordering/repetition of the seven encoders up to length 6, "
         "prepend/append arguments incl. empty and binary, each termination kind, 1-3 build blocks, static headers/"
         "parameters) compiled to the binary setting encoding, 4-10 messages with payloads of 0-4096 bytes and arbitrary "
@@ -92,6 +92,14 @@ def _gen_any_program(rng, kind):
     return steps
 
 
+def _mask_key(rng) -> int:
+    # the mask key is four random bytes: every value of the 32-bit space is legal, including the ones with zero bytes
+    r = rng.random()
+    if r < 0.12:
+        return rng.choice([0, 0, 1, 0xFF, 0x100, 0xFFFF, 0x00FFFFFF, 0xFF000000, 0x01000000, 0xFFFFFFFF, 0x80000000, 0x7FFFFFFF])
+    return rng.getrandbits(32)
+
+
 def _payload(rng, maxlen=4096):
     n = rng.choice([0, 0, 1, 2, 3, 15, 16, 17, 100, 128, 1000, rng.randint(0, maxlen)])
     return bytes(rng.getrandbits(8) for _ in range(n))
@@ -123,7 +131,9 @@ def generate(rng, tier, index):
                    "uri": hx(rng.choice([b"", b"", b"/load", b"/a/b.php", b"/", b"/api/", b"/x/y/", _payload(rng, 8)])),
                    "headers": [[hx(b"User-Agent"), hx(b"UA/1.0")]] if rng.random() < 0.6 else [],
                    "params": [[hx(b"z"), hx(b"1")]] if rng.random() < 0.3 else [],
-                   "body": hx(rng.choice([b"", b"", b"old-body"]))}
+                   "body": hx(rng.choice([b"", b"", b"old-body"])),
+                   # a request that has no request line yet (the caller fills verb and URI in afterwards)
+                   "method": hx(rng.choice([b"GET", b"GET", b"GET", b"POST", b""]))}
         if prog != "server" and rng.random() < 0.3:
             # the request handed in already carries a header / parameter of a name the program decorates statically (with
             # another value): what the program prescribes is what has to be on the wire
@@ -136,7 +146,7 @@ def generate(rng, tier, index):
                     initial["params"] = initial["params"] + [[hx(k), hx(b"stale")]]
         nm = sum(1 for s in cfg[prog] if s[0] == "mask")
         msgs.append({"prog": prog, "values": vals, "initial": initial,
-                     "mask_keys": [hx(struct.pack(">I", rng.getrandbits(32))) for _ in range(nm)],
+                     "mask_keys": [hx(struct.pack(">I", _mask_key(rng))) for _ in range(nm)],
                      "strip_pad": rng.random() < 0.5})
     return {"world": "S-exchange", "config": cfg, "messages": msgs}
 
@@ -320,7 +330,7 @@ def _exchange(res, cfg, messages, probes):
                 init_req = None
                 res.probes["transform_without_initial_request"] += 1
             else:
-                init_req = HttpRequest(method=b"GET", uri=unhx(ini["uri"]), params={unhx(k): unhx(v) for k, v in ini["params"]},
+                init_req = HttpRequest(method=unhx(ini.get("method", hx(b"GET"))), uri=unhx(ini["uri"]), params={unhx(k): unhx(v) for k, v in ini["params"]},
                                        headers={unhx(k): unhx(v) for k, v in ini["headers"]}, body=unhx(ini["body"]))
             uri_nonempty = bool(unhx(ini["uri"])) and any(s[0] == "uri_append" for s in steps)
             if uri_nonempty:
@@ -335,6 +345,23 @@ def _exchange(res, cfg, messages, probes):
                 continue
             res.log.log("cli_lib", mi, req.uri, sorted(req.params.items()), sorted(req.headers.items()), req.body)
             produced.append((mi, prog, steps, req, want, unhx(ini["uri"])))
+            if init_req is not None:
+                # "any initial request": what the caller's request already carried and the program does not set stays
+                set_h = {rc.arg(s_).partition(b": ")[0] for s_ in steps if s_[0] in ("_header", "_hostheader")} | \
+                        {rc.arg(s_) for s_ in steps if s_[0] == "header"}
+                set_p = {rc.arg(s_).partition(b"=")[0] for s_ in steps if s_[0] == "_parameter"} | \
+                        {rc.arg(s_) for s_ in steps if s_[0] == "parameter"}
+                lost = [k for k, v in init_req.headers.items() if k not in set_h and req.headers.get(k) != v] + \
+                       [k for k, v in init_req.params.items() if k not in set_p and req.params.get(k) != v]
+                if req.method != init_req.method:
+                    lost.append(b"<method>")
+                if not init_req.method and not init_req.uri:
+                    res.probes["initial_request_without_request_line"] += 1
+                if lost:
+                    res.violate(("C04", "initial_request_parts_lost", prog, "no_request_line" if not (init_req.method or init_req.uri) else "with_request_line"),
+                                f"transform(.., request=r) with r = (method {init_req.method!r}, uri {init_req.uri!r}, headers "
+                                f"{dict(init_req.headers)!r:.200}, params {dict(init_req.params)!r:.200}) returned a message without "
+                                f"{lost!r:.200}, which the program does not set (program {steps})")
             if init_req is None:
                 # nothing but what the program prescribes may be in a message built from scratch
                 allowed_h = {rc.arg(s_).partition(b": ")[0] for s_ in steps if s_[0] in ("_header", "_hostheader")} | \
